@@ -44,6 +44,15 @@ pub use core::fmt;
 pub mod cosmwasm_std { pub use super::*; }
 pub mod cw_utils { pub use super::*; }
 pub mod cw_storage_plus { pub use super::*; }
+pub mod cw2 { pub use super::*; }
+pub mod cw3 { pub use super::*; }
+pub mod cw_controllers { pub use super::*; }
+// ... and so do `crate::<module>::Name` paths into the extracting crate's own modules
+pub mod state { pub use super::*; }
+pub mod msg { pub use super::*; }
+pub mod error { pub use super::*; }
+pub mod contract { pub use super::*; }
+pub mod helpers { pub use super::*; }
 pub type SMap<K, V> = vstd::map::Map<K, V>;
 pub type Raw = vstd::map::Map<Seq<u8>, Seq<u8>>;
 
